@@ -109,7 +109,8 @@ def run(ctx):
     ctx.assume("exact arithmetic; scipy.fft.fft/ifft(norm='forward') = the DFT definition; roots_legendre nodes/weights taken from scipy as rationals (checked: sum w = 2, P_n(x_i) ~ 0)")
     ctx.out_of_scope("full pipeline for L > 6; floating-point accumulation error; Parseval (quadratic) beyond the per-degree identities of C08")
     ctx.parallel_sections([("grid", lambda c: part_grid(c, thorough)), ("legendre", lambda c: part_legendre(c, thorough)),
-                           ("kernels", lambda c: part_kernels(c, thorough)), ("roundtrip", lambda c: part_roundtrip(c, thorough))])
+                           ("kernels", lambda c: part_kernels(c, thorough)), ("roundtrip", lambda c: part_roundtrip(c, thorough)),
+                           ("pointwise", lambda c: part_pointwise(c, thorough))])
 
 
 def part_grid(ctx, thorough):
@@ -581,3 +582,65 @@ def part_roundtrip(ctx, thorough):
     res = ctx.query_many(tasks)
     if any(r.verdict == "cex" for r in res):
         ctx.violation("src:roundtrip", "synthesis followed by analysis does not return the coefficients (source kernels)", {"L": [1, 2, 3]}, replay_source)
+
+
+def part_pointwise(ctx, thorough):
+    """evaluate_at_points(c, theta, phi) = sum_lm c_lm Y_lm(theta, phi) for every coefficient vector in the unit box
+    (linear in c: LRA), at generic points; Y_lm from the source's own Legendre values and the Condon-Shortley phases"""
+    import cmath
+    ms = load_shimmed("chmpy.shape.sht")
+    mc = pyx2py.load(PYX, "chmpy.shape._sht__pyp", dict(pyxrt.RUNTIME), package="chmpy.shape")
+    LP = 5 if thorough else 3
+    bad = None
+    tasks = []
+    for L in range(1, LP + 1):
+        sht = ms.SHT(L)
+        sht.plm = mc.AssocLegendre(L)
+        for (t0, p0) in ((0.83, 0.0), (0.83, 2.1), (2.4, -1.3)):
+            P = np.zeros(sht.nplm())
+            sht.plm.evaluate_batch(math.cos(t0), result=P)
+            pidx = {}
+            k = 0
+            for m in range(L + 1):
+                for l in range(m, L + 1):
+                    pidx[(l, m)] = k
+                    k += 1
+            for kind in ("cplx", "real"):
+                n = sht.nlm() if kind == "cplx" else sht.nplm()
+                c = np.array([SymC(Sym(z3.Real("cr%d" % i)), Sym(z3.Real("ci%d" % i)) if (kind == "cplx" or i > L) else 0) for i in range(n)], dtype=object)
+                ex = Explorer()
+                pth = ex.run(lambda: sht.evaluate_at_points(c, t0, p0))
+                ctx.add_paths(ex)
+                if len(pth) != 1 or pth[0].exc is not None:
+                    ctx.mark_inconclusive("pointwise L=%d %s" % (L, kind), "not executable symbolically: %r" % (pth[0].exc if pth else None))
+                    continue
+                got = SymC.lift(pth[0].value)
+                ref = SymC(0, 0)
+                for l in range(L + 1):
+                    for m in range(0, l + 1):
+                        pv = float(P[pidx[(l, m)]])
+                        sgn = -1.0 if m % 2 else 1.0
+                        if kind == "cplx":
+                            cp, cn = c[l * (l + 1) + m], c[l * (l + 1) - m]
+                        else:
+                            cp = c[pidx[(l, m)]]
+                            cn = cp.conjugate() * sgn
+                        ref = ref + cp * (cmath.exp(1j * m * p0) * pv * sgn)
+                        if m > 0:
+                            ref = ref + cn * (cmath.exp(-1j * m * p0) * pv)
+                box = []
+                for v in c:
+                    for comp in (v.re, v.im):
+                        if isinstance(comp, Sym) and not z3.is_rational_value(comp.t):
+                            box += [comp.t >= -1, comp.t <= 1]
+                eps = z3.RealVal(Fraction(1, 10 ** 9))
+                goals = []
+                for a, b in ((got.re, ref.re),) + (((got.im, ref.im),) if kind == "cplx" else ()):
+                    d = (Sym._lift(a) - b).t
+                    goals.append(z3.And(d <= eps, d >= -eps))
+                tasks.append(dict(name="pointwise L=%d %s at (theta,phi)=(%.2f,%.2f): evaluate_at_points(c) = sum c_lm Y_lm to 1e-9 for every coefficient vector in the unit box (LRA)"
+                                  % (L, kind, t0, p0), assumptions=box, goal=z3.And(goals), timeout=ctx.default_timeout, extract=lambda mdl: {}))
+    res = ctx.query_many(tasks)
+    fails = [t["name"] for t, r in zip(tasks, res) if r.verdict == "cex"]
+    if fails:
+        ctx.violation("sht:pointwise", "point-wise evaluation differs from the harmonics: %s" % fails[0], {"L": [1, 2, 3]}, replay_sht)
